@@ -454,6 +454,12 @@ func (c *RC) txRecorder() *FuncInfo {
 			}
 		}
 	}
+	// (the recording may be written out in the entry itself)
+	for _, w := range c.A.FnSites[ot] {
+		if w.Kind == "write" && w.Loc == "ctx.Transactions" {
+			return ot
+		}
+	}
 	return nil
 }
 
@@ -772,6 +778,16 @@ func ruleRequestTx(c *RC) *RuleResult {
 			for k, v := range sn.F.m {
 				if !v && strings.HasPrefix(k, "l:cbres:GetTx:") {
 					okk = true
+				}
+			}
+			// (the lookup may sit in a helper that reports "not found": its false result on the path, and it is the one
+			// place that asks the pool)
+			getters := c.funcsReaching("cb:GetTx")
+			for ev := range sn.Events {
+				if strings.HasPrefix(ev, "fn:") && strings.HasSuffix(ev, "=false") {
+					if f := c.Prog.fn(strings.TrimSuffix(strings.TrimPrefix(ev, "fn:"), "=false")); f != nil && getters[f] {
+						okk = true
+					}
 				}
 			}
 			elem := false
